@@ -94,6 +94,14 @@ class Recorder:
         # loop-head boundaries of the look schedule ("all", or [period, phase]: metaepoch count % period == phase),
         # where every reporting / query accessor is read and its answers are logged
         self.look = None
+        # where the tree is, for the role of a consult (see RecGSC)
+        self.phase = "step"                     # "step": no sprouting round since the last boundary; "round": get_seeds returned
+        self.boundary_mc = 0                    # metaepoch count at the last boundary consult
+        self.post_seen = False                  # a post-metaepoch consult has been seen since the last boundary
+        self.round_expected = 0                 # demes the tree will hold when the current round is complete
+        self.round_mc = 0                       # metaepoch count when the current round began
+        self.post_mc = 0                        # metaepoch count at the last consult after a metaepoch
+        self.last_tree_verdict = False
 
     def reset_for_new_tree(self) -> None:
         """the same configuration objects (and so the same recorder) serve a second tree: forget the first tree's log"""
@@ -105,6 +113,9 @@ class Recorder:
         self.prev_ngen = {}
         self.dumped = False
         self.loaded_runs = []
+        self.phase, self.boundary_mc, self.post_seen, self.round_expected, self.last_tree_verdict = "step", 0, False, 0, False
+        self.round_mc = 0
+        self.post_mc = 0
 
     def __deepcopy__(self, memo):
         # SproutMechanism.get_seeds deep-copies candidates (individual -> problem -> objective -> recorder);
@@ -456,6 +467,30 @@ class Recorder:
         ev["b"] = self.take_batches()
         self.events.append(ev)
 
+    def tree_role(self, tree) -> str:
+        """role of a consult of the global condition made by the tree itself (see RecGSC)"""
+        mc = int(tree.metaepoch_count)
+        if self.phase == "round" and mc != self.round_mc:
+            # a new metaepoch has begun since the round (caller-driven stepping: no loop-head consult in between)
+            self.phase, self.post_seen, self.boundary_mc = "step", False, self.round_mc
+        if self.phase == "step":
+            return "run" if (mc == self.boundary_mc or (self.post_seen and mc == self.post_mc)) else "step"
+        ndemes = sum(len(lv) for lv in tree.levels)
+        return "run" if (ndemes >= self.round_expected or self.last_tree_verdict) else "other"
+
+    def after_consult(self, by: str, mc: int, v: bool) -> None:
+        if by == "run":
+            self.phase, self.boundary_mc, self.post_seen = "step", mc, False
+        elif by == "step":
+            self.post_seen, self.post_mc = True, mc
+        if by != "deme":
+            self.last_tree_verdict = v
+
+    def note_round(self, tree, ret) -> None:
+        self.phase = "round"
+        self.round_mc = int(tree.metaepoch_count)
+        self.round_expected = sum(len(lv) for lv in tree.levels) + sum(len(c.individuals) for c in ret.values())
+
     def look_due(self, mc: int) -> bool:
         return self.look == "all" or (isinstance(self.look, (list, tuple)) and mc % int(self.look[0]) == int(self.look[1]))
 
@@ -537,19 +572,28 @@ class RecGSC(GlobalStopCondition):
         if rec.consults > rec.max_consults:
             raise TooManyConsults(f"more than {rec.max_consults} global stop condition consults")
         if rec.look is not None:
-            if sys._getframe(1).f_code.co_name == "run" and rec.look_due(int(tree.metaepoch_count)):
+            f0 = sys._getframe(1)
+            by0 = "deme" if isinstance(f0.f_locals.get("self"), AbstractDeme) else rec.tree_role(tree)
+            if by0 == "run" and rec.look_due(int(tree.metaepoch_count)):
                 rec.emit_look(tree)
-            return bool(self.inner(tree))
+            v0 = bool(self.inner(tree))
+            rec.after_consult(by0, int(tree.metaepoch_count), v0)
+            return v0
+        # Who is asking?  A deme (its frame is on the stack) or the tree.  The role of a consult by the tree is decided
+        # from where the tree is - not from the name of the calling function, which a refactoring may change:
+        #   "step"  the first consult by the tree after a metaepoch has begun (the post-metaepoch consult);
+        #   "run"   a consult at a metaepoch boundary: before the first step, after a completed (or abandoned) sprouting
+        #           round, or after a post-metaepoch consult that said TRUE (the loop head);
+        #   "other" a consult in the middle of a sprouting round (children of the round still to be constructed).
         f = sys._getframe(1)
         by, d = "other", ""
-        name = f.f_code.co_name
         s = f.f_locals.get("self")
+        mc = int(tree.metaepoch_count)
+        ndemes = sum(len(lv) for lv in tree.levels)
         if isinstance(s, AbstractDeme):
             by, d = "deme", s.id
-        elif name == "run":
-            by = "run"
-        elif name == "run_step":
-            by = "step"
+        else:
+            by = rec.tree_role(tree)
         if by == "run":
             if rec.reports:
                 rec.emit_report(tree)
@@ -557,6 +601,7 @@ class RecGSC(GlobalStopCondition):
                 rec.do_dump(tree)
         v = bool(self.inner(tree))
         rec.emit({"e": "gsc", "by": by, "d": d, "v": v, "snap": rec.snap(tree, full=(by != "deme"))})
+        rec.after_consult(by, mc, v)
         return v
 
     def __str__(self):
@@ -593,7 +638,9 @@ class RecSprout(SproutMechanism):
     def get_seeds(self, tree):
         rec = self.rec
         if rec.look is not None:
-            return self.inner.get_seeds(tree)
+            ret0 = self.inner.get_seeds(tree)
+            rec.note_round(tree, ret0)
+            return ret0
         before = rec.snap(tree, full=True)
         pops = {}
         hists = {}
@@ -628,6 +675,7 @@ class RecSprout(SproutMechanism):
                 else:
                     res.append([k, [rec.gid(i.genome) for i in v.individuals]])
             return res
+        rec.note_round(tree, ret)
         ev = {"e": "sprout", "snap": before, "ret": out, "gen": ids(gen, True), "used": ids(used, False)}
         if self.atoms is not None:
             ev["atoms"] = self.atoms(rec, tree, ret, cents)
